@@ -327,7 +327,10 @@ def run(args):
             json.dump(rec, open(os.path.join(ROOT, path), "w"), indent=1, default=str)
             violations.append((path, False, names))
         else:
-            in_ledger = [n for n in names if n in ledger.get(prop, [])]
+            # obligation names carry source line numbers (escape-X#why@L23); an edit that only moves the statement must not hide
+            # the obligation from the baseline comparison: compare with the line numbers removed
+            base = {ledger_key(n) for n in ledger.get(prop, [])}
+            in_ledger = [n for n in names if ledger_key(n) in base]
             kf = match_known_fn(open_findings, fnkey)
             if kf:
                 known_lines.append(f"KNOWN-FINDING: property={prop} {kf['id']} {kf['what']}")
@@ -461,6 +464,11 @@ def run(args):
     if undecided:
         return 2
     return 0
+
+
+def ledger_key(name):
+    import re
+    return re.sub(r"([@#])L\d+", r"\1L", name)
 
 
 def safe(name):
